@@ -6,6 +6,19 @@ import os
 HERE = os.path.dirname(os.path.dirname(os.path.abspath(__file__)))
 
 CLAIMS = {
+    "C07": dict(
+        text="Static must-kill (reset completeness) analysis: for every implementor class in every configuration, "
+             "the set W of bandit-state locations that any training, warm-start or prediction path may write is "
+             "computed from the receiver-exact abstract traces, and MAB.fit's trace is walked with a MUST-killed set "
+             "to show each location in W is reset on every path before fit reads or accumulates on it. Decides "
+             "the structural clause 'nothing learned before fit can survive or influence it' for all histories; "
+             "found and now guards the repaired LSHNearest stale-hash-table defect.",
+        note="Trusted: sklearn estimators' fit re-initialises them; arm-keyed dicts have the current arms as keys "
+             "(C08); externals table; CPython ast.",
+        technique="kill/def-use analysis over abstract-interpretation traces (MUST-killed sets joined by "
+                  "intersection, loops kill only when they range over all arms/keys/clusters), value-dead field "
+                  "computation",
+        ref="DESIGN.md section 3, C07"),
     "C10": dict(
         text="Static ownership/effect analysis: over all 55 policy configurations, every write reachable from "
              "predict/predict_expectations is shown to land on an object allocated inside the call (deepcopy, "
